@@ -15,8 +15,13 @@ def pick_pool(rnd):
     names, end in I, or have two letters (never a two-letter name together
     with its letters: level/flatten names would be ambiguous)."""
     x = rnd.random()
-    if x < 0.70:
+    if x < 0.67:
         return RANKS
+    if x < 0.70:
+        # a rank whose lower-case name is a Python keyword (KF-14)
+        pool = [rnd.choice(["IN", "IS", "OR", "AS", "IF"])] + rnd.sample(RANKS, 3)
+        rnd.shuffle(pool)
+        return pool
     if x < 0.78:
         # a rank whose name is the concatenation of two others: [A, B, AB] and [AB, A, B]
         # spell the same variable-name suffix (legal as long as nothing is flattened)
